@@ -25,8 +25,8 @@ SPEC = {
     "watchdog_s": {"quick": 900, "thorough": 3600},
 }
 PLAN = {
-    "quick": {"small_n": 4, "two_palettes": True, "random": {"M2": 1200, "M3": 1200, "M4": 300, "M7s": 300, "M7long": 48, "M9poly": 800, "M9deep": 800, "M10hiso": 600}, "k": 2, "corpus": True},
-    "thorough": {"small_n": 5, "two_palettes": True, "small_sample": 0.1, "random": {"M2": 10000, "M3": 10000, "M4": 3000, "M7s": 3000, "M7long": 400, "M9poly": 8000, "M9deep": 8000, "M10hiso": 6000}, "k": 3, "corpus": True, "cfi": 8},
+    "quick": {"small_n": 4, "two_palettes": True, "random": {"M2": 1200, "M3": 1200, "M4": 300, "M7s": 300, "M7long": 48, "M9poly": 800, "M9deep": 800, "M10hiso": 600, "M12rings": 400}, "k": 2, "corpus": True},
+    "thorough": {"small_n": 5, "two_palettes": True, "small_sample": 0.1, "random": {"M2": 10000, "M3": 10000, "M4": 3000, "M7s": 3000, "M7long": 400, "M9poly": 8000, "M9deep": 8000, "M10hiso": 6000, "M12rings": 4000}, "k": 3, "corpus": True, "cfi": 8},
 }
 
 
